@@ -42,7 +42,7 @@ STUBS = ['PipeSocket / ScriptedPeer', 'virtual-time loop with the real '
 ASSUMPTIONS = []
 CELL_BUDGET_S = {'quick': 240, 'thorough': 2400}
 SAMPLE_P = 0.02
-MAX_WITNESSES = 6
+MAX_WITNESSES = 10
 CMD_T = 10
 DATA_T = 30
 
